@@ -11,11 +11,16 @@ INTAB = z3.Function('in_table', z3.IntSort(), z3.BoolSort())
 WS = 7            # type code of Marking.whitespace (any distinct constant)
 DIGIT = 8
 
+_CODES = {}
 def type_code(obj):
+    "an injective code per table item type (assigned on first use; 7 and 8 are reserved)"
     from pytableaux.lang import Marking
     if obj is Marking.whitespace: return WS
     if obj is Marking.digit: return DIGIT
-    return 100 + (hash(getattr(obj, '__name__', str(obj))) % 50)
+    try: key = obj if isinstance(obj, type) else (type(obj).__name__, getattr(obj, 'name', str(obj)))
+    except Exception: key = str(obj)
+    if key not in _CODES: _CODES[key] = 100 + len(_CODES)
+    return _CODES[key]
 
 class CharV(SymVal):
     def __init__(self, code): self.code = code
